@@ -209,15 +209,10 @@ func (a *Agent) gatherCandidates(ctx context.Context, done chan struct{}) { //no
 		return
 	}
 
-	a.gatherCandidatesInternal(ctx)
-
-	switch a.continualGatheringPolicy {
-	case GatherOnce:
-		if _, err := a.setGatheringState(ctx, GatheringStateComplete); err != nil {
-			a.log.Warnf("Failed to set gatheringState to GatheringStateComplete: %v", err)
-		}
-	case GatherContinually:
-		// Initialize known interfaces before starting monitoring
+	if a.continualGatheringPolicy == GatherContinually {
+		// Record the interface set this cycle starts from BEFORE its first pass, replacing
+		// whatever an earlier cycle left: an address that shows up while the first pass is
+		// still running, or that an earlier cycle knew, is then found by the monitor.
 		_, addrs, err := localInterfaces(
 			a.net,
 			a.interfaceFilter,
@@ -229,12 +224,24 @@ func (a *Agent) gatherCandidates(ctx context.Context, done chan struct{}) { //no
 			a.log.Warnf("Failed to get initial interfaces for monitoring: %v", err)
 		} else {
 			_ = a.loop.Run(ctx, func(context.Context) {
+				known := make(map[string]netip.Addr, len(addrs))
 				for _, info := range addrs {
-					a.lastKnownInterfaces[info.addr.String()] = info.addr
+					known[info.addr.String()] = info.addr
 				}
+				a.lastKnownInterfaces = known
 			})
 			a.log.Infof("Initialized network monitoring with %d IP addresses", len(addrs))
 		}
+	}
+
+	a.gatherCandidatesInternal(ctx)
+
+	switch a.continualGatheringPolicy {
+	case GatherOnce:
+		if _, err := a.setGatheringState(ctx, GatheringStateComplete); err != nil {
+			a.log.Warnf("Failed to set gatheringState to GatheringStateComplete: %v", err)
+		}
+	case GatherContinually:
 		// The monitor runs on this goroutine: `done` is closed when it has ended, so that
 		// Close waits for a re-gather pass as it waits for the first one.
 		a.startNetworkMonitoring(ctx)
